@@ -69,6 +69,9 @@ META = {
 }
 
 
+_LAST_ERROR = [None]
+
+
 def _value(stmt, d):
     from sqlalchemy import exc as sa_exc
 
@@ -77,6 +80,7 @@ def _value(stmt, d):
         p = c.params
         return (str(c), tuple(sorted((k, repr(v)) for k, v in p.items())))
     except (sa_exc.SQLAlchemyError, NotImplementedError) as e:
+        _LAST_ERROR[0] = f"{d.name}: {type(e).__name__}: {str(e)[:300]}"   # for witnesses only, never part of a verdict
         return ("EXC", type(e).__name__)
     except Exception as e:  # internal error: still a value (C22 judges these); must be reproducible
         import traceback
@@ -708,7 +712,8 @@ def _twin_checks(ctx, env, G, ds, dnames, nodes, spec, rng, _value, sa_exc):
                         f"{dn}: pickle round trip of the never compiled twin of statement #{i} ({n['op']}) compiles to {got!r:.300}, "
                         f"the statement itself to {n['value'][dn]!r:.300}",
                         {"spec": spec, "node": i, "ops": [(m["parent"], m["op"]) for m in nodes], "dialect": dn,
-                         "original": n["value"][dn], "copy": got, "pickled": "never compiled twin"})
+                         "original": n["value"][dn], "copy": got, "pickled": "never compiled twin",
+                         "last_error_message": _LAST_ERROR[0]})
                     break
         # (2) transforming copies: compiled original vs never compiled twin
         seed = rng.randrange(1 << 30)
